@@ -99,6 +99,23 @@ def run_pair(ck, lib, gm, sseed, nthread, ncpu, nsteps):
   return m, maxisl, maxcon
 
 
+PGS_RACE_XML = ('<mujoco><option solver="PGS" jacobian="dense" iterations="50" cone="elliptic"/><worldbody><geom type="plane" size="5 5 .1"/>'
+                + ''.join('<body pos="%g %g .05"><freejoint/><geom type="box" size=".1 .1 .05"/></body>' % (0.5 * (i % 4), 0.5 * (i // 4))
+                          for i in range(12))
+                + '</worldbody></mujoco>')
+PGS_RACE_FP = 'C02:pgs-island-dense-residual-race'
+
+
+def pgs_dense_islands(lib, m):
+  """input class of the known finding PGS_RACE_FP: PGS solver + island solve + dense constraint Jacobian"""
+  sparse = int(m.opt.jacobian) == lib.enums.mjJAC_SPARSE or (int(m.opt.jacobian) == lib.enums.mjJAC_AUTO and m.nv >= 60)
+  return (int(m.opt.solver) == lib.enums.mjSOL_PGS and not (int(m.opt.disableflags) & lib.enums.mjDSBL_ISLAND) and not sparse)
+
+
+def is_pgs_race(report):
+  return 'solPGS' in report and 'residual' in report and 'solveIslandTask' in report
+
+
 def tsan_run(ck, xmls, nthread, nsteps):
   """(b) native TSan runner over a list of scene XMLs; returns list of (xml, report) with repo frames."""
   exe = vb.build_exe('c02_tsan', [os.path.join(vb.NATIVE, 'C02', 'c02_runner.cc')], variant='tsan')
@@ -131,6 +148,7 @@ def main(ck):
   ck.assumptions = ['OS schedules are sampled (diversified by affinity masks and oversubscription), not enumerated; C03 covers the '
                     'dispatch protocol under a controlled scheduler', 'tactile sensors (sensor plugin) not built: tactileTask not exercised']
   tsan_xmls = []
+  excluded = [0]
 
   def test(case):
     gm, sseed, nthread, ncpu, nsteps = case
@@ -140,19 +158,31 @@ def main(ck):
     m, maxisl, maxcon = r
     nt = maxisl >= 2 or maxcon > 16
     if nt and len(tsan_xmls) < (2 if ck.quick else 24):
-      tsan_xmls.append(gm.xml)
+      if pgs_dense_islands(lib, m):
+        excluded[0] += 1      # known finding PGS_RACE_FP: reported by its own probe below, kept out of the sampled TSan scenes
+      else:
+        tsan_xmls.append(gm.xml)
     ck.case(nontrivial=nt, key=(gm.xml, sseed, nthread, ncpu, nsteps),
             sample=dict(xml=gm.xml[:400], nthread=nthread, cpus=ncpu or 'all', steps=nsteps, max_islands=maxisl, max_contacts=maxcon) if nt else None,
             labels=['threads=%d' % nthread, 'cpus=%s' % (ncpu or 'all'), 'sol:' + gm.info['option'].get('solver', '?'),
                     'islands>=2' if maxisl >= 2 else 'islands<2', 'ncon>16' if maxcon > 16 else 'ncon<=16'])
 
   strat = st.tuples(scenes(), mg.state_seed(), st.sampled_from([1, 2, 3, 4, 8]), st.sampled_from([1, 2, 0, 0]), st.integers(5, 25))
-  ck.run_hypothesis(test, strat, ck.budget(40, 1200), name='threaded-vs-single')
+  ck.run_hypothesis(test, strat, ck.budget(30, 1200), name='threaded-vs-single')
   # TSan
   bad = tsan_run(ck, tsan_xmls, 4, 12 if ck.quick else 40)
   ck.extra['tsan_scenes'] = len(tsan_xmls)
+  ck.extra['tsan_scenes_excluded_known_pgs_race'] = excluded[0]
   for xml, rep in bad[:3]:
     ck.violation('ThreadSanitizer / native runner: %s' % rep[:1500], dict(xml=xml, report=rep), bucket='tsan')
+  # dedicated probe of the known finding: twelve boxes resting on a plane (twelve islands), PGS, dense Jacobian, pool of 4
+  for xml, rep in tsan_run(ck, [PGS_RACE_XML], 4, 12)[:1]:
+    if is_pgs_race(rep):
+      ck.violation('ThreadSanitizer: island PGS tasks running in parallel read the whole dense efc_force vector in residual() '
+                   '(engine_solver.c) while the tasks of the other islands write their own entries: %s' % rep[:600],
+                   dict(xml=xml, report=rep), bucket='known:pgs-island-dense-residual-race', fingerprint=PGS_RACE_FP)
+    else:
+      ck.violation('ThreadSanitizer / native runner (PGS probe scene): %s' % rep[:1500], dict(xml=xml, report=rep), bucket='tsan')
 
 
 LEVEL = 'exploration'
